@@ -120,6 +120,18 @@ def require_src(d, form):
     return f"require {spec}" + tail[len(head):]
 
 
+def bind_name(form, d):
+    return "shared" if form == "asx" else _ORIG["bind_name"](form, d)
+
+
+def get_expr(form, d):
+    return f"shared->{d}_get()" if form == "asx" else _ORIG["get_expr"](form, d)
+
+
+def bump_expr(form, d):
+    return f"shared->{d}_bump()" if form == "asx" else _ORIG["bump_expr"](form, d)
+
+
 VAL_KINDS = {"objv", "lstv", "mapv", "strv", "null", "bool"}
 
 
@@ -186,25 +198,104 @@ def diagnostics(sess, i, key, loadcap):
     return d
 
 
+# A walk that has already recorded findings of a verdict category is not
+# continued for ever: on a tree whose loader walks a cycle of requires until
+# the host's stack ends every such command takes a second and the walk tens of
+# minutes.  After WALK_BUDGET seconds (CUT_BUDGET once a walk was cut) a walk
+# WITH such findings is ended and what it found is reported; a walk without
+# any is never cut, so a tree on which the property holds is walked in full
+# however slow the machine is.
+WALK_BUDGET = 90
+CUT_BUDGET = 20
+CUT = {"walks": 0}
+
+
+def verdict_findings(path, pos, count):
+    """Count the verdict findings appended to the walker's output since pos."""
+    try:
+        with open(path, "rb") as f:
+            f.seek(pos)
+            chunk = f.read()
+    except OSError:
+        return pos, count
+    last = chunk.rfind(b"\n")
+    if last < 0:
+        return pos, count
+    for line in chunk[:last].split(b"\n"):
+        try:
+            r = json.loads(line)
+        except ValueError:
+            continue
+        if r.get("t") == "f" and r.get("cat") in C11_VERDICT:
+            count += 1
+    return pos + last + 1, count
+
+
 def run_walk_job(job, d):
     """The walk runs in a fresh process of this module (see install)."""
     import os
+    import signal
     import subprocess
     import sys
     jpath = os.path.join(d, "job.json")
     with open(jpath, "w") as f:
         json.dump(job, f)
-    p = subprocess.run([sys.executable, "-m", "harness.c11", jpath], env=dict(os.environ),
-                       cwd=os.path.dirname(os.path.dirname(os.path.abspath(__file__))),
-                       stdout=subprocess.PIPE, stderr=subprocess.STDOUT, text=True, timeout=7000)
+    logpath = os.path.join(d, "walker.log")
+    t0 = time.time()
+    pos = count = 0
+    cut = False
+    with open(logpath, "w") as log:
+        p = subprocess.Popen([sys.executable, "-m", "harness.c11", jpath], env=dict(os.environ),
+                             cwd=os.path.dirname(os.path.dirname(os.path.abspath(__file__))),
+                             stdout=log, stderr=subprocess.STDOUT, start_new_session=True)
+        try:
+            while True:
+                try:
+                    p.wait(timeout=2)
+                    break
+                except subprocess.TimeoutExpired:
+                    pass
+                el = time.time() - t0
+                if el > 7000:
+                    raise MachineryError("walker did not end")
+                if el > (CUT_BUDGET if CUT["walks"] else WALK_BUDGET):
+                    pos, count = verdict_findings(job["out"], pos, count)
+                    if count:
+                        cut = True
+                        break
+        finally:
+            if p.poll() is None:
+                try:
+                    os.killpg(p.pid, signal.SIGKILL)
+                except OSError:
+                    pass
+                p.wait()
+    if cut:
+        CUT["walks"] += 1
+        # keep the complete lines only (a process may have been stopped while writing)
+        with open(job["out"], "rb") as f:
+            lines = f.read().split(b"\n")
+        good = []
+        for line in lines:
+            try:
+                r = json.loads(line)
+            except ValueError:
+                continue
+            if r.get("t") != "crash":
+                good.append(line)
+        with open(job["out"], "wb") as f:
+            f.write(b"\n".join(good) + b"\n")
+        return
     if p.returncode != 0:
-        raise MachineryError("walker failed: " + p.stdout[-2000:])
+        with open(logpath) as f:
+            raise MachineryError("walker failed: " + f.read()[-2000:])
 
 
 def install():
     for name, fn in (("module_source", module_source), ("require_src", require_src),
                      ("render_value", render_value), ("observe", observe), ("diagnostics", diagnostics),
-                     ("run_walk_job", run_walk_job)):
+                     ("run_walk_job", run_walk_job), ("bind_name", bind_name), ("get_expr", get_expr),
+                     ("bump_expr", bump_expr)):
         if name not in _ORIG:
             if not callable(getattr(S, name, None)):
                 raise MachineryError("harness/c10.py has no function " + name)
@@ -594,7 +685,12 @@ def run_checks(run, quick, rng, info, ahead, sim_kw):
     run.cov["rule"] = ("one case per importer command executed on a materialised module graph, each compared "
                        "on the full predicted importer scope (names, values, module-object members, counters "
                        "through every path, load counters); evaluations counts interpret calls and look-ups")
-    run.cov["exhaustive"] = True
+    run.cov["exhaustive"] = not CUT["walks"]
+    if CUT["walks"]:
+        info["walks_ended_early"] = CUT["walks"]
+        run.assumptions.append(f"INCOMPLETE: {CUT['walks']} walk(s) were ended after {WALK_BUDGET} s / {CUT_BUDGET} s "
+                               "because they had already recorded violations; the violations listed were observed "
+                               "before that point")
     run.cov["bounds"] = info
     run.assumptions += [
         "checkerlang_module_path and the load log list are placed in the base environment (DESIGN 5.4)",
